@@ -5,6 +5,7 @@ package main
 
 import (
 	"fmt"
+	"math"
 	"time"
 
 	. "adharness/common"
@@ -80,6 +81,118 @@ func sfGo(fid int) func(ad.ConstVector) ad.ConstScalar {
 	}
 }
 
+// plain float64 twins (for the finite-difference oracle)
+func vfFloat(fid int, x []float64) []float64 {
+	switch fid {
+	case 0:
+		return []float64{x[0]*x[1] + x[2], x[0] / x[1], math.Sqrt(x[0])*x[2] - x[1]}
+	case 1:
+		return []float64{x[0] * x[0], -x[1]}
+	}
+	return []float64{x[0]*x[1]/(x[2]+x[3]) - x[3]*x[3], x[1], x[2] * x[0]}
+}
+func sfFloat(fid int, x []float64) float64 {
+	switch fid {
+	case 0:
+		return x[0]*x[1]/x[2] + x[2]*x[2]
+	case 1:
+		return x[0] * x[1] * (x[0] - x[1])
+	}
+	return x[0] / (x[1]*x[1] + x[2]*x[3])
+}
+
+// runHelper calls the library's Jacobian / Hessian helper; returns the matrix, the maximal order
+// found on the caller's vector afterwards, and the outcome
+func runHelper(c *Case) (m [][]float64, xord int, outcome string) {
+	x := unhexList(c.Inp)
+	xv := ad.NewDenseReal64Vector(append([]float64{}, x...))
+	var r ad.Matrix
+	rows, cols := len(x), len(x)
+	if c.Kind == "Jac" {
+		rows = vfDims[c.Fid][1]
+	}
+	if c.P == 0 {
+		r = ad.NullDenseReal64Matrix(rows, cols)
+	} else {
+		r = ad.NullDenseFloat64Matrix(rows, cols)
+	}
+	outcome = "ok"
+	func() {
+		defer func() {
+			if e := recover(); e != nil {
+				outcome = "panic: " + fmt.Sprint(e)
+			}
+		}()
+		if c.Kind == "Jac" {
+			r.Jacobian(vfGo(c.Fid), xv)
+		} else {
+			r.Hessian(sfGo(c.Fid), xv)
+		}
+	}()
+	for i := 0; i < xv.Dim(); i++ {
+		if o := xv.ConstAt(i).GetOrder(); o > xord {
+			xord = o
+		}
+	}
+	m = make([][]float64, rows)
+	for i := 0; i < rows; i++ {
+		m[i] = make([]float64, cols)
+		for j := 0; j < cols; j++ {
+			m[i][j] = r.ConstAt(i, j).GetFloat64()
+		}
+	}
+	return
+}
+
+// helperOracle: entries of the returned matrix against central finite differences of the float twin
+func helperOracle(c *Case) string {
+	x := unhexList(c.Inp)
+	m, xord, oc := runHelper(c)
+	if oc != "ok" {
+		return fmt.Sprintf("%s helper (function %d): %s", c.Kind, c.Fid, oc)
+	}
+	if xord != 0 {
+		return fmt.Sprintf("%s helper (function %d): the caller's vector was activated (order %d)", c.Kind, c.Fid, xord)
+	}
+	h := math.Ldexp(1, -14)
+	at := func(i int, d float64) []float64 {
+		y := append([]float64{}, x...)
+		y[i] += d
+		return y
+	}
+	if c.Kind == "Jac" {
+		for j := range x {
+			fp, fm := vfFloat(c.Fid, at(j, h)), vfFloat(c.Fid, at(j, -h))
+			for i := range m {
+				fd := (fp[i] - fm[i]) / (2 * h)
+				if math.Abs(fd-m[i][j]) > 1e-5*(1+math.Abs(fd)) {
+					return fmt.Sprintf("Jacobian helper (function %d): entry (%d,%d) = %v, finite difference of f_%d in x_%d: %v", c.Fid, i, j, m[i][j], i, j, fd)
+				}
+			}
+		}
+		return ""
+	}
+	for i := range x {
+		for j := range x {
+			pp := sfFloat(c.Fid, at2(x, i, h, j, h))
+			pm := sfFloat(c.Fid, at2(x, i, h, j, -h))
+			mp := sfFloat(c.Fid, at2(x, i, -h, j, h))
+			mm := sfFloat(c.Fid, at2(x, i, -h, j, -h))
+			fd := (pp - pm - mp + mm) / (4 * h * h)
+			if math.Abs(fd-m[i][j]) > 1e-3*(1+math.Abs(fd)) {
+				return fmt.Sprintf("Hessian helper (function %d): entry (%d,%d) = %v, second finite difference: %v", c.Fid, i, j, m[i][j], fd)
+			}
+		}
+	}
+	return ""
+}
+func at2(x []float64, i int, di float64, j int, dj float64) []float64 {
+	y := append([]float64{}, x...)
+	y[i] += di
+	y[j] += dj
+	return y
+}
+
 func genHelper(rng *Rng, i int) *Case {
 	fid := rng.Intn(3)
 	kind := "Jac"
@@ -100,44 +213,10 @@ func genHelper(rng *Rng, i int) *Case {
 
 func (rn *runner) helperCase(c *Case) {
 	x := unhexList(c.Inp)
-	xv := ad.NewDenseReal64Vector(append([]float64{}, x...))
-	var r ad.Matrix
-	rows, cols := len(x), len(x)
-	if c.Kind == "Jac" {
-		rows = vfDims[c.Fid][1]
-	}
-	if c.P == 0 {
-		r = ad.NullDenseReal64Matrix(rows, cols)
-	} else {
-		r = ad.NullDenseFloat64Matrix(rows, cols)
-	}
-	outcome := "ok"
-	func() {
-		defer func() {
-			if e := recover(); e != nil {
-				outcome = "panic: " + fmt.Sprint(e)
-			}
-		}()
-		if c.Kind == "Jac" {
-			r.Jacobian(vfGo(c.Fid), xv)
-		} else {
-			r.Hessian(sfGo(c.Fid), xv)
-		}
-	}()
-	// the caller's vector must not be activated
-	xord := 0
-	for i := 0; i < xv.Dim(); i++ {
-		if o := xv.ConstAt(i).GetOrder(); o > xord {
-			xord = o
-		}
-	}
-	rowsT := make([]string, rows)
-	for i := 0; i < rows; i++ {
-		row := make([]float64, cols)
-		for j := 0; j < cols; j++ {
-			row[j] = r.ConstAt(i, j).GetFloat64()
-		}
-		rowsT[i] = FList(row)
+	m, xord, outcome := runHelper(c)
+	rowsT := make([]string, len(m))
+	for i := range m {
+		rowsT[i] = FList(m[i])
 	}
 	if outcome != "ok" {
 		xord = 99
